@@ -56,8 +56,16 @@ CLAIMS = {
          'cross-checked dynamically on all 38 functions (bounded).',
          'trusted: syntactic effect analysis; numpy/scipy routines called by bct draw no random numbers themselves; get_rng decided by the bounded tier only',
          'static effect obligations per seed-accepting function on the real source; dynamic reproducibility cross-check (bounded)', '5/C05'),
+ 'C15': ('proof',
+         'Deductive (pyvc+z3, all n, all k / s) for kcore_bu, kcore_bd and score_wu (peel=False): loop invariant with a ghost alive-set updated from the program\'s own peel set: '
+         'the working matrix is the input with rows and columns of peeled nodes zeroed and nothing else changed; MAXIMALITY: an arbitrary (Skolem) node set in which every member keeps '
+         'degree / in+out degree / strength >= the bound inside the set is never peeled; at exit every node that still has a connection meets the bound; the reported size is the '
+         'number of such nodes. Uses two code-independent counting lemmas (degree of a masked matrix = degree restricted to the mask; restricted degree is monotone in the set). '
+         'kcoreness_centrality_bu/_bd, nestedness and the peel-order outputs are bounded only (all graphs n<=5/4, every k, subset-enumeration oracle).',
+         PROOF_NOTE + ' Lemmas lemma_masked_degree, lemma_degree_monotone and the callee contracts of degrees_und/degrees_dir/strengths_und are assumed (code-independent statements).',
+         'pyvc + z3 with ghost state and a Skolem set for maximality; bounded subset-enumeration oracle for the coreness routines', '5/C15'),
 }
-for _pid in ['C02', 'C03', 'C04', 'C07', 'C08', 'C09', 'C10', 'C12', 'C14', 'C15', 'C16', 'C18', 'C19', 'C20']:
+for _pid in ['C02', 'C03', 'C04', 'C07', 'C08', 'C09', 'C10', 'C12', 'C14', 'C16', 'C18', 'C19', 'C20']:
     CLAIMS[_pid] = ('exploration', BND + 'See DESIGN.md section 5/%s for the clauses and why the deductive tier does not (yet) reach them.' % _pid,
                     BND_NOTE % _pid, 'runtime contracts on the real code over exhaustive small scopes (bounded stand-in)', '5/' + _pid)
 NOT_YET = 'check not built yet in this round (see DESIGN.md section 10); no claim is made'
@@ -93,7 +101,7 @@ def main():
             'add_only': True,
         },
         'engines': [
-            {'name': 'pyvc', 'path': 'engine/pyvc', 'serves_properties': ['C01', 'C06', 'C11', 'C17'], 'kind_free_text': 'AST -> verification conditions -> z3/cvc5 over the real source, sidecar contracts (deductive, unbounded)'},
+            {'name': 'pyvc', 'path': 'engine/pyvc', 'serves_properties': ['C01', 'C06', 'C11', 'C15', 'C17'], 'kind_free_text': 'AST -> verification conditions -> z3/cvc5 over the real source, sidecar contracts (deductive, unbounded)'},
             {'name': 'pyframe', 'path': 'engine/pyframe', 'serves_properties': ['C05', 'C13'], 'kind_free_text': 'static frame (mutation/alias) and effect (RNG) obligations over the real AST'},
             {'name': 'lean', 'path': 'engine/lean', 'serves_properties': [], 'kind_free_text': 'Lean 4 + Mathlib lemma library for finite sums/modularity identities'},
             {'name': 'weave', 'path': 'engine/weave.py', 'serves_properties': sorted(CLAIMS), 'kind_free_text': 'bounded stand-in: the same contracts executed on the real functions over exhaustive small scopes with a scripted RandomState'},
